@@ -133,9 +133,24 @@ class TypingShapes:
         q = f"{cls}.{method}"
         fn = self.mod.func(q)
         inl = {}
-        for name, fns in self.mod.methods(cls).items():
-            if name.startswith("_") and name != "__init__":
-                inl[f"self.{name}"] = (self.mod, fns[0])
+        # helpers of the compiler: the private methods of the class and of its base classes in this module, and its other
+        # public methods when one is written in terms of another (optional(t) = union(t, "None"))
+        chain = [cls]
+        seen_cls = set()
+        while chain:
+            c_ = chain.pop(0)
+            if c_ in seen_cls or c_ not in self.mod.defs:
+                continue
+            seen_cls.add(c_)
+            node_ = self.mod.defs[c_][0]
+            for name, fns in self.mod.methods(c_).items():
+                if name == method and c_ == cls:
+                    continue
+                if (name.startswith("_") and not name.startswith("__")) or (not name.startswith("_") and name in self.METHODS):
+                    inl.setdefault(f"self.{name}", (self.mod, fns[0]))
+            for b_ in getattr(node_, "bases", []):
+                if isinstance(b_, ast.Name):
+                    chain.append(b_.id)
         params = [a.arg for a in fn.args.args[1:]]
         argmap: Dict[str, Any] = {}
         if fn.args.vararg is not None:
